@@ -51,8 +51,6 @@ type escript struct {
 	Ops    []eop `json:"ops"`
 }
 
-var waiterKinds = map[string]bool{"destroy": true, "gwdestroy": true, "dellast": true, "summon": true, "wgc": true, "stop": true, "unlockwait": true, "set": true, "get": true, "panic": true, "storm": true, "hold": true}
-
 func genEngine(r *rand.Rand, idx int) escript {
 	sc := escript{InMem: r.IntN(3) == 0, Idle: int64(1 + r.IntN(3)), Forced: idx%3 != 2}
 	at := int64(0)
